@@ -335,14 +335,20 @@ impl CelValue {
         if let CelValue::Int(l) = lhs {
             match rhs {
                 CelValue::Int(_) => (lhs, rhs),
-                CelValue::UInt(u) => (lhs, (u as i64).into()),
+                CelValue::UInt(u) => match i64::try_from(u) {
+                    Ok(i) => (lhs, i.into()),
+                    Err(_) => (lhs, CelValue::value_error("uint operand does not fit int")),
+                },
                 CelValue::Float(_) => ((l as f64).into(), rhs),
                 CelValue::Bool(b) => (lhs, (b as i64).into()),
                 _ => (lhs, rhs),
             }
         } else if let CelValue::UInt(l) = lhs {
             match rhs {
-                CelValue::Int(_) => ((l as i64).into(), rhs),
+                CelValue::Int(_) => match i64::try_from(l) {
+                    Ok(i) => (i.into(), rhs),
+                    Err(_) => (CelValue::value_error("uint operand does not fit int"), rhs),
+                },
                 CelValue::UInt(_) => (lhs, rhs),
                 CelValue::Float(_) => ((l as f64).into(), rhs),
                 CelValue::Bool(b) => (lhs, (b as u64).into()),
@@ -382,6 +388,25 @@ impl CelValue {
     pub fn ord(self, rhs_value: CelValue) -> CelResult<Option<Ordering>> {
         let type1 = self.as_type();
         let type2 = rhs_value.as_type();
+
+        // int and uint are ordered by the numbers they denote
+        match (&self, &rhs_value) {
+            (CelValue::Int(l), CelValue::UInt(r)) => {
+                return Ok(Some(if *l < 0 {
+                    Ordering::Less
+                } else {
+                    (*l as u64).cmp(r)
+                }))
+            }
+            (CelValue::UInt(l), CelValue::Int(r)) => {
+                return Ok(Some(if *r < 0 {
+                    Ordering::Greater
+                } else {
+                    l.cmp(&(*r as u64))
+                }))
+            }
+            _ => {}
+        }
 
         let (lhs, rhs) = CelValue::type_prop(self, rhs_value);
 
@@ -711,6 +736,14 @@ impl CelValueDyn for CelValue {
                 } else {
                     rhs_val
                 };
+
+                // an int and a uint are equal exactly when they denote the same number
+                match (&lhs_val, &rhs) {
+                    (CelValue::Int(l), CelValue::UInt(r)) | (CelValue::UInt(r), CelValue::Int(l)) => {
+                        return CelValue::from_bool(*l >= 0 && (*l as u64) == *r)
+                    }
+                    _ => {}
+                }
 
                 let (lhs, rhs) = CelValue::type_prop(lhs_val, rhs);
 
